@@ -1,5 +1,6 @@
 import Driver.Common
 import Driver.C03
+import FontcModel.Metric
 
 /-!
   C04 end-to-end oracle: hmtx+HVAR, vmtx+VVAR and every MVAR-tagged global metric of the *real* font, evaluated
@@ -92,6 +93,45 @@ def checkHeights (d : Design) (f : Font) : GlyphCheck :=
           else acc
         | _, _ => acc) acc) {}
 
+/-! ### correspondence: the font's HVAR delta sets are those of the `AdvanceDeltas` model -/
+
+/-- the delta set of glyph `gid` in the font: (region as (start, peak, end) per axis, delta), zero deltas dropped -/
+def fontDeltaSet (vt : VarTable) (gid : Nat) : List (List (Rat × Rat × Rat) × Int) :=
+  let (o, i) : Nat × Nat := match vt.map with
+    | some m => (m[gid]?).getD ((m.getLast?).getD (0, 0))
+    | none => (0, gid)
+  match vt.ivs.data[o]? with
+  | some (some d) =>
+    ((d.regionIdx.zip (d.rows.getD i [])).filterMap fun (ri, dv) =>
+      (vt.ivs.regions[ri]?).map fun r => (r, dv)).filter (·.2 != 0)
+  | _ => []
+
+def modelDeltaSet (e : Option Metric.Entry) : List (List (Rat × Rat × Rat) × Int) :=
+  ((Metric.deltaSetOf e).map fun (r, d) => (r.map fun t => (t.min, t.peak, t.max), d.floor)).filter (·.2 != 0)
+
+def sameSet {α} [BEq α] (a b : List α) : Bool := a.all (b.contains ·) && b.all (a.contains ·)
+
+/-- `FontcModel/Metric.lean` (`State.addAll` over the font's glyph order) against the HVAR table of the real font.
+    Glyphs with components are skipped (a decomposed glyph inherits the intermediate locations of its components:
+    modelled under C12); `none` when nothing is comparable. -/
+def hvarAgrees (d : Design) (f : Font) : Option (Bool × String) :=
+  match f.hvar with
+  | none => none
+  | some hv =>
+    let n := d.axes.length
+    let full := d.masters.filter (!·.sparse)
+    let gs : List Metric.GlyphSrc := f.names.map fun nm =>
+      ⟨nm, d.masters.filterMap fun m => (m.glyph? nm).map fun sg => (m.nloc, sg.advance)⟩
+    let st := (Metric.State.init n (full.map (·.nloc)) (d.masters.map (·.nloc))).addAll gs
+    let comparable (nm : String) : Bool :=
+      d.masters.any (fun m => (m.glyph? nm).isSome) &&
+      d.masters.all fun m => match m.glyph? nm with | some sg => sg.components.isEmpty | none => true
+    let bad := (f.names.zipIdx).find? fun (nm, gid) =>
+      comparable nm && !sameSet (fontDeltaSet hv gid) (modelDeltaSet ((st.deltas.getD gid none)))
+    match bad with
+    | some (nm, gid) => some (false, s!"HVAR delta set of {nm}: font {fontDeltaSet hv gid} model {modelDeltaSet (st.deltas.getD gid none)}")
+    | none => if f.names.any comparable then some (true, "") else none
+
 def handle : Handler := fun s =>
   match parseDesign s with
   | none => badInput "c04: cannot parse design"
@@ -109,9 +149,13 @@ def handle : Handler := fun s =>
         let tags := [s!"axes{d.axes.length}", s!"masters{nMasters}", s!"mvarRecords{nrec}"] ++
           (if f.vmtx.isSome then ["vertical"] else []) ++ (if d.masters.any (·.sparse) then ["sparse"] else []) ++
           (match f.hvar with | some hv => if hv.map.isSome then ["hvar-indirect"] else ["hvar-direct"] | none => [])
+        let corr := hvarAgrees d f
         match all.find? (!·.ok) with
-        | some b => { oracle := some false, nontrivial := nMasters ≥ 3, cls := b.cls, tags, detail := b.detail }
-        | none => { oracle := some true, nontrivial := nMasters ≥ 3 && nrec ≥ 1, tags }
+        | some b => { corr := corr.map (·.1), oracle := some false, nontrivial := nMasters ≥ 3, cls := b.cls, tags, detail := b.detail }
+        | none =>
+          { corr := corr.map (·.1), oracle := some true, nontrivial := nMasters ≥ 3 && nrec ≥ 1, tags,
+            cls := if corr.map (·.1) == some false then "hvar-model-differs" else "",
+            detail := (corr.map (·.2)).getD "" }
     | some (.atom "err" :: msg) =>
       { oracle := some false, cls := "valid-source-rejected", detail := (msg.head?.bind Sexp.asString?).getD "" }
     | _ => badInput "c04: no result"
